@@ -161,6 +161,8 @@ let spec_a inp out =
   | [_; ls; rs; fis; css], [n; u; c] ->
     let l = unhexs ls and r = unhexs rs in
     if not (lines_ok l && lines_ok r) then None else
+    if not (M.patch_okb l r (dec_chunks css)) then
+      Some "the chunks do not describe how Left becomes Right (patch_ok, the hypothesis of the application theorems, fails)" else
     (match apply_check "normal" M.x_apply_normal l r n with
      | Some e -> Some e
      | None ->
